@@ -68,6 +68,9 @@ def classify(events, pos):
         return "iscycle/%s" % ("self-loop" if len(ev["nodes"]) >= 2 and ev["nodes"][-1] == ev["nodes"][-2] else "longer-cycle" if ev["nodes"][-1] in ev["nodes"][:-1] else "no-cycle")
     if ev["e"] == "paths":
         return "filter/%s/workers-%s" % (ev["mode"], "1" if ev["workers"] == 1 else "n")
+    if ev["e"] == "seq":
+        cyc = "cyclic" if any(e["s"] == e["t"] for e in ev["edges"]) or len(ev["edges"]) > len({(min(e["s"], e["t"]), max(e["s"], e["t"])) for e in ev["edges"]}) or ev["n"] <= len(ev["edges"]) else "acyclic"
+        return "sequential/%s/%s/%s%s" % (ev["helper"], "panic" if ev["panic"] else "error" if ev["err"] else "wrong-result", cyc, "/skip-limit" if ev["skip"] or ev["limit"] else "")
     if ev["e"] == "hang":
         return "hang/%s" % mode
     if ev["e"].startswith("p"):
@@ -97,12 +100,19 @@ def run(ctx):
                         "events logged by the harness-supplied Driver under one mutex in real-time order; BreadthFirst's return logged after "
                         "it returns; goroutine count compared with the count before the call",
                         "gate mode: verifhook points in traversal.go used as scheduler gates - shapes schedules, never produces verdicts",
-                        "the helpers of ops/traversal.go need a graph.Transaction with criteria evaluation, which the fake database does not have: they are covered through their "
-                        "building blocks only - PathSegment.IsCycle on every walk and the segment filters (AcyclicNodeFilter, UniquePathSegmentFilter) under BreadthFirst on every small graph"]
+                        "the helpers of ops/traversal.go (TraversePaths, TraverseIntermediaryPaths, AcyclicTraverseNodes, AcyclicTraverseTerminals) run over a fake graph.Transaction that evaluates "
+                        "exactly the criteria they build (id(s)/id(e) in [...], a relationship kind matcher); their building blocks - PathSegment.IsCycle on every walk and the segment filters "
+                        "(AcyclicNodeFilter, UniquePathSegmentFilter) under BreadthFirst - on every small graph; AcyclicTraverseTerminals is only bounded (every reachable sink, only reached nodes): "
+                        "it also reports nodes reached a second time, which the statement does not settle"]
     if ctx.replay:
         rep = json.load(open(ctx.replay))["replay"]
         one = os.path.join(ctx.work, "one.ndjson")
-        write_ndjson(one, rep["events"])
+        if rep.get("what") == "seq":        # sequential helpers are deterministic: run them again on the recorded graph
+            gp = os.path.join(ctx.work, "g.ndjson")
+            write_ndjson(gp, [rep["events"][0]["g"]])
+            ctx.vh(["trav", "seq", "--in", gp, "--out", one], timeout=600)
+        else:
+            write_ndjson(one, rep["events"])
         validate(ctx, one, "replay")
         return
     # 1. mechanism models
@@ -165,7 +175,12 @@ def run(ctx):
     t = os.path.join(ctx.work, "filters.ndjson")
     ctx.vh(["trav", "filters", "--in", fgp, "--out", t, "--stride", "2" if quick else "1"], timeout=1500)
     n_filters = validate(ctx, t, "filters")
-    ctx.cov["runs"] = {"gate": n_gate, "free": n_free, "pipe": n_pipe, "filters": n_filters}
+    # the sequential helpers of package ops over a fake transaction that evaluates the criteria they build: every graph, every root,
+    # both directions, with and without a branch query, skip / limit
+    t = os.path.join(ctx.work, "seq.ndjson")
+    ctx.vh(["trav", "seq", "--in", fgp, "--out", t, "--stride", "3" if quick else "1"], timeout=1500)
+    n_seq = validate(ctx, t, "seq")
+    ctx.cov["runs"] = {"gate": n_gate, "free": n_free, "pipe": n_pipe, "filters": n_filters, "sequential": n_seq}
     nt = sum(1 for p in plans if p["n"] >= 3)
     ctx.cov["distinct_nontrivial"] = nt * 5
     ctx.cov["samples"].append({"plan": plans[len(plans) // 2]})
